@@ -356,6 +356,9 @@ pub struct RecvStream {
     read_chunk_fut: ReadChunkFuture,
     is_0rtt: bool,
     pending_stop: Option<VarInt>,
+    /// Code of the peer's RESET_STREAM once a read has reported it. Quinn answers any later
+    /// read with a clean end of stream, so the code is kept and reported again.
+    reset: Option<u64>,
 }
 
 type ReadChunkFuture = ReusableBoxFuture<
@@ -379,6 +382,7 @@ impl RecvStream {
             read_chunk_fut: ReusableBoxFuture::new(async { unreachable!() }),
             is_0rtt,
             pending_stop: None,
+            reset: None,
         }
     }
 }
@@ -391,6 +395,10 @@ impl quic::RecvStream for RecvStream {
         &mut self,
         cx: &mut task::Context<'_>,
     ) -> Poll<Result<Option<Self::Buf>, StreamErrorIncoming>> {
+        if let Some(error_code) = self.reset {
+            return Poll::Ready(Err(StreamErrorIncoming::StreamTerminated { error_code }));
+        }
+
         if let Some(mut stream) = self.stream.take() {
             self.read_chunk_fut.set(async move {
                 let chunk = stream.read_chunk(usize::MAX, true).await;
@@ -403,6 +411,9 @@ impl quic::RecvStream for RecvStream {
             let _ = stream.stop(error_code);
         }
         self.stream = Some(stream);
+        if let Err(ReadError::Reset(error_code)) = &chunk {
+            self.reset = Some(error_code.into_inner());
+        }
         Poll::Ready(Ok(chunk
             .map_err(convert_read_error_to_stream_error)?
             .map(|c| c.bytes)))
